@@ -120,6 +120,15 @@ Section Fields.
     destruct (@correctF R NumR I g b (solve Up' dt -f Up') Vp' (sA st') dt) as [V1' A1']. cbn [fst snd sU sV sA]. reflexivity.
   Qed.
 
+  (* the total energy is a quadratic form of the state: scaling the state by s scales kinetic + strain energy by s^2 *)
+  Theorem energy_scale (m k : fld -> fld -> R) : sbf I m -> sbf I k ->
+    forall s st, energy I m k (scaleS s st) = s * s * energy I m k st.
+  Proof.
+    intros Hm Hk s st. unfold energy, total_energy, SEq, scaleS. cbn [sU sV sA].
+    rewrite !(sbf_scal I m Hm), !(sbf_scal I k Hk), (m_scal_r I m Hm), (m_scal_r I k Hk).
+    unfold_num. q2r. ring.
+  Qed.
+
   (* ---------- linear elasticity: the minimiser IS linear (uniqueness of the stationary point) ---------- *)
   Section Forms.
     Variables m k : fld -> fld -> R.
